@@ -245,7 +245,7 @@ Final ==
   /\ Imp("C10", Ev.closes = 1)
   /\ UNCHANGED <<ops, idof, live, got, idres, stopped, pend, causes, sendBad, oncancel, onstop, cbrun, closeOpen, closeDone, rdDone>>
 
-Ignored == /\ l <= Len(Trace) /\ Ev.ev \in {"PeerClose", "Teardown", "SB", "SE", "RB", "RE", "CB", "CE", "OnNotify", "Start", "Drift"}
+Ignored == /\ l <= Len(Trace) /\ Ev.ev \in {"PeerClose", "Teardown", "SB", "SE", "RB", "RE", "CB", "CE", "OnNotify", "Start", "Drift", "BufferReused"}
            /\ l' = l + 1
            /\ UNCHANGED <<ops, idof, live, got, idres, stopped, pend, causes, sendBad, oncancel, onstop, cbrun, closeOpen, closeDone, rdDone>>
 Terminal == /\ l <= Len(Trace) /\ Ev.ev \in {"Crash", "Deadlock", "Leak"}
